@@ -671,6 +671,13 @@ func main() {
 	for k, v := range heapStatus {
 		fragStatus[k] = v
 	}
+	// trans2: the helpers outside frag.go's fragment (frag_more.go) -> Gen/Funcs2.lean
+	moreLean, moreStatus := translateMore()
+	writeIfChanged(filepath.Join(outDir, "Funcs2.lean"), moreLean)
+	for k, v := range moreStatus {
+		fragStatus[k] = v
+	}
+	// end trans2
 	// trans3: cache/cache.go (frag_cache.go)
 	cacheLean, cacheStatus := translateCache()
 	writeIfChanged(filepath.Join(outDir, "Cache.lean"), cacheLean)
